@@ -213,7 +213,13 @@ impl PriceLevel {
                             .fetch_add(hidden_reduced, Ordering::AcqRel);
                     }
 
-                    self.orders.push(Arc::new(updated));
+                    if hidden_reduced > 0 {
+                        // replenished from hidden quantity: joins at the back
+                        self.orders.push(Arc::new(updated));
+                    } else {
+                        // partially filled: keeps its time priority
+                        self.orders.push_front(Arc::new(updated));
+                    }
                 } else {
                     self.order_count.fetch_sub(1, Ordering::AcqRel);
                     match &*order_arc {
